@@ -169,6 +169,33 @@ class Driver:
 
 # --------------------------------------------------------------------------- verdict plumbing
 
+def _shorten(obj, budget=6000):
+    """JSON-able copy of obj whose serialisation stays below ~budget characters (long lists are cut)"""
+    txt = json.dumps(obj, default=str)
+    if len(txt) <= budget:
+        return obj
+    if isinstance(obj, dict):
+        return {k: _shorten(v, max(200, budget // max(1, len(obj)))) for k, v in list(obj.items())[:40]}
+    if isinstance(obj, (list, tuple)):
+        head = [_shorten(v, max(100, budget // 8)) for v in list(obj)[:6]]
+        return head + [f'... ({len(obj)} entries in all)']
+    return txt[:budget] + '...'
+
+
+def small_samples(cases, reals, k=3, scan=400):
+    """k sample cases for the evidence file: the smallest of the first `scan` generated cases, shortened — the
+    evidence must stay a small record (scale cases can be megabytes)"""
+    cand = []
+    for c, r in list(zip(cases, reals))[:scan]:
+        try:
+            size = len(json.dumps(c, default=str)) + len(json.dumps(r, default=str))
+        except Exception:   # noqa
+            continue
+        cand.append((size, len(cand), c, r))
+    cand.sort(key=lambda t: (t[0] > 4000, t[1]))      # the first cases that are small enough, in generation order
+    return [{'case': _shorten(c), 'real': _shorten(r)} for _, _, c, r in cand[:k]]
+
+
 class _Skip:
     """returned by Check.model_outcome for a case that is judged by the direct oracle only (e.g. an input too
     large to ship through the JSON protocol): the case is not counted as compared with the model"""
@@ -481,7 +508,7 @@ class Check:
             print(f'VIOLATION property={pid} replay={path} no-failing-input-found')
             rc = 1
         # open known findings that did not fire are still announced (they are recorded defects)
-        samples = [{'case': c, 'real': r} for c, r in list(zip(cases, reals))[n_corpus:n_corpus + 3]]
+        samples = small_samples(cases[n_corpus:], reals[n_corpus:])
         self.write_evidence(tier, seed, t0, report, axioms, declared, hist, samples,
                             len(cases), len(keys), compared, {'violations': nviol,
                                                               'disagreements': len(disagreements),
@@ -513,7 +540,8 @@ class Check:
             'not_carried_by_a_theorem': list(self.partial_notes),
             'build_s': nums.get('build_s'),
         }
-        cov.update(report.get('extra', {}))
+        cov.update({k: _shorten(v, 40000) for k, v in report.get('extra', {}).items()})
+        cov['broken_obligations'] = [str(b)[:2000] for b in cov['broken_obligations']][:50]
         ev = {
             'property_id': self.pid, 'tier': tier, 'seed': seed, 'level': 'proof',
             'coverage': cov,
